@@ -436,6 +436,34 @@ def returns_literals(prog, callee_body, truth):
     return join_literal_sets(sets)
 
 
+def returns_variant_literals(prog, callee_body, variant):
+    """Literals (over the callee's parameters) that hold whenever the body returns enum variant `variant`
+    (Some / Ok / Continue ...): the join over every definition of the return place that builds that variant."""
+    c = conds(prog, callee_body)
+    sets = []
+    for (bi, si, d) in c.d.whole.get(0, []):
+        if d[0] == "assign" and d[1]["k"] == "agg" and d[1].get("ak") == "adt":
+            if d[1].get("variant") == variant:
+                sets.append(set(c.must_literals(bi)))
+            continue
+        if d[0] == "assign" and d[1]["k"] == "use":
+            # moved from a local that was built as the variant somewhere: follow one level
+            p = mir.op_place(d[1]["op"])
+            if p is not None and not p["proj"]:
+                ok_any = False
+                for (bj, sj, dj) in c.d.whole.get(p["l"], []):
+                    if dj[0] == "assign" and dj[1]["k"] == "agg" and dj[1].get("ak") == "adt":
+                        ok_any = True
+                        if dj[1].get("variant") == variant:
+                            sets.append(set(c.must_literals(bj)) | set(c.must_literals(bi)))
+                if ok_any:
+                    continue
+        return set()        # a definition we cannot classify: no guarantee
+    if not sets:
+        return set()
+    return join_literal_sets(sets)
+
+
 def expand_literals(prog, body, lits, depth=2):
     """lits plus, for every literal that is the truth value of a call to an in-workspace bool function (or a
     closure passed to with_ref/with_mut), the literals that function guarantees, rewritten to the caller's terms."""
@@ -452,6 +480,20 @@ def expand_literals(prog, body, lits, depth=2):
             continue
         seen.add(l)
         if level.get(l, 0) >= depth:
+            continue
+        if l[0] == "variant" and len(l[2]) == 1 and df.strip(l[1])[0] == "call":
+            # `helper(args) in {Some}`: what the helper guarantees whenever it returns that variant
+            t = df.strip(l[1])
+            callee = cg.lookup(body.unit, t[1])
+            if callee is not None and not callee.is_closure and callee.unit.crate == body.unit.crate and \
+                    callee.argc == len(t[3]):
+                argmap = {i + 1: a for i, a in enumerate(t[3])}
+                for nl in returns_variant_literals(prog, callee, list(l[2])[0]):
+                    nl2 = _subst_lit(nl, argmap, pv)
+                    if nl2 not in out:
+                        out.add(nl2)
+                        level[nl2] = level.get(l, 0) + 1
+                        work.append(nl2)
             continue
         if l[0] != "bool":
             continue
